@@ -4,6 +4,11 @@ print scalars only, and keep integers small."""
 import random
 
 CONSTRUCTS = [
+    # a default that is a bare name is evaluated where the function is defined, not where it is called
+    ("default_identifier_rebound", "n = 1\n\ndef f(p, q=n):\n    return p * 10 + q\n\nn = 7\n\ndef entry(a, b):\n    m = 3\n    def g(u, v=m):\n        return u * 100 + v\n    m = 5\n    print(f(a), g(b))\n    return f(a, b) + g(1)\n"),
+    # the receiver passed on as a positional argument, to a function and to a method of another object
+    ("self_as_argument", "def combine(o, d):\n    return o.v * 10 + d\n\nclass Acc:\n    def __init__(self, v):\n        self.v = v\n    def absorb(self, other):\n        self.v = self.v + other.v\n        return self.v\n"
+                         "    def mix(self, d):\n        return combine(self, d)\n    def feed(self, target):\n        return target.absorb(self)\n\ndef entry(a, b):\n    x = Acc(a)\n    y = Acc(b)\n    print(x.mix(b), y.feed(x))\n    return x.v * 10 + y.v\n"),
     ("arith_order", "def entry(a, b):\n    return a - b * 2 + (a - 1) * b\n"),
     ("compare_chain", "def entry(a, b):\n    r = 0\n    if a < b:\n        r = r + 1\n    if a <= b:\n        r = r + 2\n    if a == b:\n        r = r + 4\n    if a != b:\n        r = r + 8\n    if a > b:\n        r = r + 16\n    if a >= b:\n        r = r + 32\n    return r\n"),
     ("bool_ops", "def entry(a, b):\n    x = a and b\n    y = a or b\n    z = not a\n    print(x, y, z)\n    return (a > 0 and b > 0) or (a < 0 and not b)\n"),
